@@ -119,3 +119,27 @@ Proof.
   - exact (delivery_state_dispatch_by_name s H).
 Qed.
 Print Assumptions C05_enum_dispatch.
+
+(** The strongest form: ANY encoding of the descriptor that the descriptor reader accepts, ANY list
+    header that announces the right count (list8 or list32 - its size field is not looked at), and
+    for every field ANY bytes that the value decoder reads as the field's value ([decodes_to]: the
+    encoder's own bytes are one instance, every other width / constructor variant accepted by
+    C05_valid_encodings_are_accepted_partial is another) - in any of the layouts above - decode to
+    the field vector. *)
+Theorem C05_composite_accepts_any_encoding :
+  forall s d vs ws parts descb hdr fuel rest,
+    fields_ok (s_fields s) vs = true ->
+    presentation (s_fields s) vs ws = true ->
+    (forall r, dec_descriptor None (descb ++ r) = Ok (d, r)) -> descriptor_matches s d = true ->
+    (forall r, list_header (hdr ++ r) = Ok (lenN ws, r)) ->
+    Forall2 (decodes_to fuel) parts ws ->
+    dec_composite fuel s (descb ++ hdr ++ concat parts ++ rest) = Ok (vs, rest).
+Proof. exact composite_accepts_any_encoding. Qed.
+Print Assumptions C05_composite_accepts_any_encoding.
+
+Theorem C05_list_header_size_is_ignored :
+  (forall sz count r, count < 256 -> sz < 256 -> list_header (192 :: sz :: count :: r) = Ok (count, r)) /\
+  (forall sz count r, count < 4294967296 -> sz < 4294967296 ->
+     list_header (208 :: to_be 4 sz ++ to_be 4 count ++ r) = Ok (count, r)).
+Proof. exact (conj list_header_list8 list_header_list32). Qed.
+Print Assumptions C05_list_header_size_is_ignored.
